@@ -120,6 +120,11 @@ FIXED += [
     ("C03", "a7b56e8", "`size > name` and `not size > name` were both empty (after d3c5e49 a column value that is no number satisfied only !=), `modified >= name` likewise; `size > nan` and its negation too; `exif_datetime > 'garbage'` ended with status 0 (third audit: regressions and gaps of my own repairs d3c5e49 / 82a9cac; C03 now has mixed-type column pairs, C02 / C10 the literal nan, C10 exif_datetime among the date columns)", []),
     ("C06", "095a9ad", "`select fsize, count(*) ... group by fsize order by fsize [desc] [limit N]`: group rows were not sorted (every cell with a unit compared as 0), `desc` had no effect and `limit N` was not the top N - the repair 44fdb2c had copied the type decision of the ungrouped sort but not its reading of sizes (third audit, agents C05 and C06; C06's grouped sub-check now has fsize as a key)", []),
     ("C01", "9c3d6af", "a directory bind-mounted a second time beside itself was listed in one of the two places only (`find` lists both), without `symlinks`: visited directories were remembered by device and inode although nothing is followed (third audit, agent C02; C01 enumerates the shape in a private mount namespace)", []),
+    ("C16", "17ff1da", "`log(243, 3)` printed 4.999999999999999, `log(125, 5)` 3.0000000000000004: the repair 54517d2 covered the bases 10 and 2 only (third audit; C16 draws the bases 3, 5, 6 and 100 and demands the exact exponent for every whole base)", []),
+    ("C19", "6d20aa5", "`has_xattr()`, `xattr()`, `has_capabilities()`, `has_capability()` on an archive member read the attributes of the ARCHIVE file, so `where has_xattr('user.k')` selected every member of an archive that carries it (third audit; C19 enumerates an archive with an extended attribute)", []),
+    ("C15", "0d89d11", "`-fsize + 0` was 123 where `0 - fsize` is -123 (a leading minus did not negate a size with a unit, which arithmetic then read as the number) (third audit; C15 has pairs of spellings that must show one value)", []),
+    ("C17", "bdd0ea0", "`is_text` and `is_binary` of an unreadable file or dangling link printed `false` where the other content-derived columns are empty (third audit; they are among the columns of C17's unreadable-target case now)", []),
+    ("C14", "0837add", "`size = 9.03107t` (9929766476259.00032 bytes) matched the file of ...259 bytes: the exact product of repair ec98393 was rounded into a float whose spacing there is 0.002; `2.0100000000000000000kb` (19 decimals) fell back to the floating product (third audit; both literals are in C14's list)", []),
     ("C10", "2e125e2", "a flat chain of some 20 000 `or` / `and` conditions (one word per argument) or 17 000 arithmetic operators ended with a stack overflow (SIGSEGV / abort), and `not (a or a ...)` over 3000 conditions took 8 s to parse: the tree of a chain was as deep as the chain is long (second audit; C10 now enumerates flat chains up to the length a command line can have)", []),
     ("C10", "cbb17ce", "`where is_dir = ''`: the empty text literal was accepted as the boolean false (status 0, rows) while every other text that is no boolean is rejected (second audit; '' and ' ' are now among C10's bad booleans, and literals that are no number on numeric columns are a fourth ill-typed kind)", []),
     ("C10", "9b6a0a7", "day('2020-0\u0661-01'): the date pattern matched non-ASCII digits and the integer parse of the capture was unwrapped (found by the eval_total fuzz target after 2e7 executions)", ["date-non-ascii-digit"]),
